@@ -330,6 +330,60 @@ theorem C04_names_partial (m : Batch) (f : FileOut) (h : flushMerged m = .ok (so
           · exact keyE _ _ h
     · exact keyE _ _ h
 
+/-! ### imports: no column is lost to a name collision -/
+
+theorem storageName_inj {h : List Name} {tc : Name} (hv : validHeader h tc = true) {a b : Name}
+    (ha : a ∈ h) (hb : b ∈ h) (e : storageName tc a = storageName tc b) : a = b := by
+  unfold validHeader at hv
+  simp only [Bool.and_eq_true, Bool.not_eq_true', Bool.or_eq_true, beq_iff_eq, List.contains_eq_mem,
+    decide_eq_false_iff_not, decide_eq_true_eq] at hv
+  obtain ⟨⟨⟨_, _⟩, _⟩, ht⟩ := hv
+  unfold storageName at e
+  by_cases h1 : a = tc <;> by_cases h2 : b = tc
+  · rw [h1, h2]
+  · simp only [h1, beq_self_eq_true, ↓reduceIte, beq_iff_eq, h2] at e
+    rcases ht with ht | ht
+    · exact absurd (e.symm.trans ht.symm) h2
+    · exact absurd (e ▸ hb) ht
+  · simp only [beq_iff_eq, h1, ↓reduceIte, h2, beq_self_eq_true] at e
+    rcases ht with ht | ht
+    · exact absurd (e.trans ht.symm) h1
+    · exact absurd (e ▸ ha) ht
+  · simpa [h1, h2] using e
+
+theorem distinct_map_storage {h : List Name} {tc : Name} (hv : validHeader h tc = true) :
+    ∀ (l : List Name), (∀ x ∈ l, x ∈ h) → distinctNames l = true → distinctNames (l.map (storageName tc)) = true
+  | [], _, _ => rfl
+  | x :: xs, hsub, hd => by
+    unfold distinctNames at hd
+    simp only [Bool.and_eq_true, Bool.not_eq_true', List.contains_eq_mem, decide_eq_false_iff_not] at hd
+    simp only [List.map_cons, distinctNames, Bool.and_eq_true, Bool.not_eq_true', List.contains_eq_mem,
+      decide_eq_false_iff_not, List.mem_map, not_exists, not_and]
+    refine ⟨?_, distinct_map_storage hv xs (fun y hy => hsub y (List.mem_cons_of_mem _ hy)) hd.2⟩
+    intro y hy e
+    have := storageName_inj hv (hsub y (List.mem_cons_of_mem _ hy)) (hsub x (List.mem_cons_self ..)) e
+    exact hd.1 (this ▸ hy)
+
+/-- C04_names for imports: a header accepted by `validateImportHeader` is stored under pairwise
+distinct map keys — no column (padded, blank, reserved-looking, …) overwrites another one or the
+generated `time` column. Rests on the regenerated fact that the names used for storage ARE the names
+validated (no TrimSpace / case folding after validation): `C04_import_names_tied`. -/
+theorem C04_import_names_distinct (header : List Name) (timeCol : Name) (hv : validHeader header timeCol = true) :
+    distinctNames (storageNames header timeCol) = true ∧ (storageNames header timeCol).length = header.length := by
+  refine ⟨?_, by simp [storageNames]⟩
+  unfold validHeader at hv
+  have hd : distinctNames header = true := by
+    simp only [Bool.and_eq_true] at hv; exact hv.1.1.2
+  exact distinct_map_storage (by unfold validHeader; exact hv) header (fun _ hx => hx) hd
+
+theorem C04_import_names_tied : importNamesStoredAsValidated = true ∧ importRejectsEmptyName = true := by decide
+
+/-- non-vacuity: `time, v, " v", " time", " "` is a valid header; its trimmed version is not -/
+example : validHeader [timeName, [118], [32, 118], [32, 116, 105, 109, 101], [32]] timeName = true ∧
+    validHeader [timeName, [118], [118]] timeName = false ∧
+    validHeader [[116, 115], [32, 116, 105, 109, 101]] [116, 115] = true ∧
+    validHeader [[116, 115], timeName] [116, 115] = false := by decide
+
 /-- non-vacuity: reserved-looking names are stored -/
 example : (lifetime big [reqPlain mN [109, 101, 97, 115, 117, 114, 101, 109, 101, 110, 116] .str t0]).toOption.map
     (fun o => o.2.files.map (·.schema)) = some [[(timeName, .i64), ([109, 101, 97, 115, 117, 114, 101, 109, 101, 110, 116], .str)]] := by
